@@ -16,6 +16,7 @@ import Aqv.Lemmas.FeedLive
 import Aqv.Lemmas.FeedExec
 import Aqv.Model.FeedMu
 import Aqv.Lemmas.ScopeInv
+import Aqv.Lemmas.MuxInvB
 namespace Aqv.Props.C19
 open Aqv.Feed
 
@@ -413,6 +414,115 @@ example : Scope.Ev.closeRet 10 ∈ scopeDemoState.tr ∧ Scope.Ev.trackOk 1 ∈ 
 example : Scope.Before scopeDemoState.tr (.closeRet 10) (.count 0) ∧ Scope.Before scopeDemoState.tr (.closeRet 10) (.trackNil 3) := by
   rw [scopeDemo_tr]; decide
 example : scopeDemoState.closed = true := by decide
+
+/-! ### TypeMux (Aqv.Model.Mux) — the package's second entry point (`event.go`): Subscribe / Post / Unsubscribe / Stop under
+ANY interleaving of any number of posters, subscribers and unsubscribers and one Stop.  `Mux.Reach` is the code as written
+(`del` and Subscribe build FRESH arrays); the in-place variant is only used in the witness at the end. -/
+
+theorem mux_count_delivs (tr : List Mux.Ev) (c : Mux.Sub) (p : Mux.Pid) :
+    (Mux.delivs tr).count (c, p) = tr.count (Mux.Ev.deliver c p) := by
+  induction tr with
+  | nil => simp [Mux.delivs]
+  | cons e es ih =>
+    simp only [Mux.delivs, List.filterMap_cons] at ih ⊢
+    cases e <;> simp_all [List.count_cons] <;> grind
+
+/-- the slice a Post iterates is immutable: between taking the snapshot and returning, the backing array it reads still
+    holds exactly what it held when the snapshot was taken (nothing writes to a published array). -/
+theorem mux_snapshot_immutable {s : Mux.St} (h : Mux.Reach s) (p : Mux.Pid) (i : Nat) (hp : (s.ppc p).idx = some i) :
+    s.heap (s.snap p).1 = s.snapL p ∧ (s.snap p).2 = (s.snapL p).length ∧ (s.snapL p).Nodup :=
+  ⟨((Mux.invA_reach h).snapImm p i hp).2.1, ((Mux.invA_reach h).snapImm p i hp).2.2, (Mux.invA_reach h).l3 p i hp⟩
+
+/-- no event is delivered twice to the same receiver. -/
+theorem mux_at_most_once {s : Mux.St} (h : Mux.Reach s) (c : Mux.Sub) (p : Mux.Pid) :
+    s.tr.count (Mux.Ev.deliver c p) ≤ 1 := by
+  rw [← mux_count_delivs]
+  exact List.nodup_iff_count.mp (Mux.invB_reach h).nd (c, p)
+
+/-- EXACTLY ONCE for TypeMux: if `Post p` of type t returned nil, every receiver whose `Subscribe(t)` returned before the
+    Post was called, whose `Unsubscribe` was not called before the Post returned, and with no `Stop` called before the Post
+    returned, received the event exactly once. -/
+theorem mux_exactly_once {s : Mux.St} (h : Mux.Reach s) (p : Mux.Pid) (c : Mux.Sub) (t : Mux.Ty)
+    (hret : Mux.Ev.postRet p true ∈ s.tr)
+    (hsub : Mux.Before s.tr (.subRet c t) (.postCall p t))
+    (hlive : ¬ Mux.Before s.tr (.unsubCall c) (.postRet p true))
+    (hstop : ¬ Mux.Before s.tr .stopCall (.postRet p true)) :
+    s.tr.count (Mux.Ev.deliver c p) = 1 := by
+  have ha := Mux.invA_reach h
+  have hb := Mux.invB_reach h
+  have hd := (ha.t_pret p true).mp hret
+  have hin : c ∈ s.snapL p := by
+    rcases hb.f1d p c t hd hsub with h1 | h1
+    · exact h1
+    · exact absurd h1 hlive
+  have hfresh := ha.e2 c t p t hsub
+  have hdel : Mux.Ev.deliver c p ∈ s.tr := by
+    rcases hb.g1 p c hd hin with h1 | h1 | h1 | h1
+    · exact h1
+    · omega
+    · exact absurd h1 hlive
+    · exact absurd h1 hstop
+  have hle := mux_at_most_once h c p
+  have : 0 < s.tr.count (Mux.Ev.deliver c p) := List.count_pos_iff.mpr hdel
+  omega
+
+/-- nothing is delivered to a receiver after its `Unsubscribe` has returned (its channel is closed and `postC` is nil). -/
+theorem mux_no_delivery_after_unsubscribe_returned {s : Mux.St} (h : Mux.Reach s) (c : Mux.Sub) (p : Mux.Pid) :
+    ¬ Mux.Before s.tr (.unsubRet c) (.deliver c p) :=
+  (Mux.invB_reach h).late c p
+
+/-- a Post that is called after `Stop` has returned does not deliver anything and does not return nil. -/
+theorem mux_post_after_stop_fails {s : Mux.St} (h : Mux.Reach s) (p : Mux.Pid) (t : Mux.Ty)
+    (hb : Mux.Before s.tr .stopRet (.postCall p t)) :
+    Mux.Ev.postRet p true ∉ s.tr ∧ ∀ c, Mux.Ev.deliver c p ∉ s.tr := by
+  have ha := Mux.invA_reach h
+  have hi := Mux.invB_reach h
+  have hcall := (Aqv.Feed.sub2_mem hb).2
+  have hne := ((ha.t_pcall p t).mp hcall).1
+  have hps := hi.ps p t
+  have hpc : s.ppc p = .called ∨ s.ppc p = .done false := by
+    apply Classical.byContradiction
+    intro hn
+    exact hps ⟨hne, fun h1 => hn (Or.inl h1), fun h1 => hn (Or.inr h1)⟩ hb
+  refine ⟨fun hr => ?_, fun c => hi.p0 p c (by rcases hpc with h1 | h1 <;> simp [h1])⟩
+  have := (ha.t_pret p true).mp hr
+  rcases hpc with h1 | h1 <;> rw [h1] at this <;> cases this
+
+-- non-vacuity: receivers 1, 2, 3 of type 0; Post 9 is parked on receiver 1, which is unsubscribed under it (the `closing`
+-- case lets the Post go on); 2 and 3 get the event once each.
+def muxDemo : List Mux.Act :=
+  [.subNew 1 0, .subReg 1, .subNew 2 0, .subReg 2, .subNew 3 0, .subReg 3, .tick, .postCall 9 0, .postSnap 9, .postNext 9,
+   .unsubCall 1, .unsubDel 1, .cwBegin 1, .deliverSkip 9, .cwEnd 1, .postNext 9, .deliverSend 9, .postNext 9, .deliverSend 9,
+   .postNext 9]
+def muxDemoState : Mux.St := (Mux.run false Mux.init muxDemo).getD Mux.init
+theorem muxDemo_reach : Mux.Reach muxDemoState :=
+  Mux.reach_run Mux.Reach.init (by unfold muxDemoState; rfl : Mux.run false Mux.init muxDemo = some muxDemoState)
+theorem muxDemo_tr : muxDemoState.tr =
+    [.subRet 1 0, .subRet 2 0, .subRet 3 0, .postCall 9 0, .unsubCall 1, .unsubRet 1, .deliver 2 9, .deliver 3 9,
+     .postRet 9 true] := by rfl
+instance (tr : List Mux.Ev) (a b : Mux.Ev) : Decidable (Mux.Before tr a b) :=
+  inferInstanceAs (Decidable (List.Sublist [a, b] tr))
+example : Mux.Ev.postRet 9 true ∈ muxDemoState.tr ∧ Mux.Before muxDemoState.tr (.subRet 2 0) (.postCall 9 0) ∧
+    ¬ Mux.Before muxDemoState.tr (.unsubCall 2) (.postRet 9 true) ∧ ¬ Mux.Before muxDemoState.tr .stopCall (.postRet 9 true) := by
+  rw [muxDemo_tr]; decide
+example : muxDemoState.tr.count (.deliver 2 9) = 1 :=
+  mux_exactly_once muxDemo_reach 9 2 0 (by rw [muxDemo_tr]; decide) (by rw [muxDemo_tr]; decide) (by rw [muxDemo_tr]; decide)
+    (by rw [muxDemo_tr]; decide)
+
+/-- WITNESS that compacting the receiver list IN PLACE (`append(slice[:pos], slice[pos+1:]...)`) breaks the property: the
+    same interleaving run with `step true` — Post 9 parked on receiver 1, receiver 1 unsubscribes, the shared array becomes
+    [2, 3, 3] under the Post's snapshot — delivers the event to receiver 3 twice and never to receiver 2, although Post returns
+    nil and receiver 2 was subscribed before the Post and never unsubscribed. -/
+theorem mux_inplace_delete_witness :
+    ∃ s, Mux.run true Mux.init muxDemo = some s ∧
+      Mux.Ev.postRet 9 true ∈ s.tr ∧ Mux.Before s.tr (.subRet 2 0) (.postCall 9 0) ∧ Mux.Ev.unsubCall 2 ∉ s.tr ∧
+      s.tr.count (.deliver 2 9) = 0 ∧ s.tr.count (.deliver 3 9) = 2 ∧ s.heap (s.snap 9).1 = [2, 3, 3] := by
+  refine ⟨(Mux.run true Mux.init muxDemo).getD Mux.init, by rfl, ?_⟩
+  have htr : ((Mux.run true Mux.init muxDemo).getD Mux.init).tr =
+      [.subRet 1 0, .subRet 2 0, .subRet 3 0, .postCall 9 0, .unsubCall 1, .unsubRet 1, .deliver 3 9, .deliver 3 9,
+       .postRet 9 true] := by rfl
+  rw [htr]
+  refine ⟨by decide, by decide, by decide, by decide, by decide, by rfl⟩
 
 /-! ### Non-vacuity of the fairness assumptions: the `demo` interleaving (a Send blocked in Select on a subscriber that is
 unsubscribed under it, then a second Send), continued until every receiver is waiting again and then idle forever, is a
